@@ -135,7 +135,82 @@ func (v *FnVC) call1(fr *frame, st *State, x ssa.CallInstruction) Val {
 		fm, top := v.callMayEmit(x)
 		v.havocEmits(st, fm, top)
 	}
-	return v.freshTyped("ret."+calleeName(c), rt, st, reach)
+	res := v.freshTyped("ret."+calleeName(c), rt, st, reach)
+	v.libraryPost(fr, st, x, args, res, reach)
+	return res
+}
+
+// libraryPost: facts about the result of modelled library calls (trusted, listed in evidence).
+// yaml.v3 (*Node).Decode / DecodeWithOptions into a `**T` target: a node whose resolved tag is not "!!null" that
+// decodes without error leaves a non-nil pointer in the target (decode.go allocates the pointee before it unmarshals
+// into it; only a null node stores nil).
+func (v *FnVC) libraryPost(fr *frame, st *State, x ssa.CallInstruction, args []Val, res Val, reach Term) {
+	c := x.Common()
+	sc := c.StaticCallee()
+	if sc == nil {
+		return
+	}
+	switch sc.String() {
+	case "(*gopkg.in/yaml.v3.Node).Decode", "(*gopkg.in/yaml.v3.Node).DecodeWithOptions":
+	default:
+		return
+	}
+	if len(c.Args) < 2 || len(args) < 2 {
+		return
+	}
+	mk, ok := c.Args[1].(*ssa.MakeInterface)
+	if !ok {
+		return
+	}
+	pp, ok := under(mk.X.Type()).(*types.Pointer)
+	if !ok {
+		return
+	}
+	inner, ok := under(pp.Elem()).(*types.Pointer)
+	if !ok {
+		return
+	}
+	if _, isStruct := under(inner.Elem()).(*types.Struct); !isStruct {
+		return
+	}
+	node, ok := args[0].(Sc)
+	if !ok {
+		return
+	}
+	errV, ok := res.(IfaceV)
+	if !ok {
+		return
+	}
+	cell := v.value(fr, mk.X)
+	after, ok := v.deref(st, cell, pp.Elem(), reach).(Sc)
+	if !ok {
+		return
+	}
+	nt := c.Args[0].Type()
+	npt, ok := under(nt).(*types.Pointer)
+	if !ok {
+		return
+	}
+	nst, ok := under(npt.Elem()).(*types.Struct)
+	if !ok {
+		return
+	}
+	var tag Term
+	found := false
+	for i := 0; i < nst.NumFields(); i++ {
+		if nst.Field(i).Name() == "Tag" {
+			tv := v.loadLoc(st, Loc{Kind: locField, Base: node.T, T: nst.Field(i).Type(), SKey: structKey(npt.Elem()), FName: "Tag"}, reach)
+			if ts, ok := tv.(Sc); ok {
+				tag = ts.T
+				found = true
+			}
+		}
+	}
+	if !found {
+		return
+	}
+	v.note("yaml.v3: decoding a node whose tag is not !!null into a **T target leaves a non-nil pointer (library fact)")
+	v.sc.Assert(Implies(And(reach, Eq(errV.Tag, tZero), Not(Eq(tag, StrLit("!!null")))), Not(Eq(after.T, tZero))))
 }
 
 func calleeName(c *ssa.CallCommon) string {
